@@ -77,6 +77,11 @@ theorem voc_writes_spec_label (c : Voc.Cfg) (f : Small2.Fields) (h : c.codec = 2
   · rw [he, List.drop_append_of_le_length (by omega), show 36 = pre.length from hl.symm]
     simp [hlen]
 
+/-- non-vacuity: an A-law configuration; bytes 36, 37 of its header are 06 00 -/
+example : ∃ v, spec 0x08 0x11 false = some (.num v) ∧
+    ((Voc.hdr { codec := 0x11, ch := 1, sr := 8000 } { filelength := 47, datalength := 4, frames := 4 }).drop 36).take 2 = Small2.le16 v :=
+  voc_writes_spec_label { codec := 0x11, ch := 1, sr := 8000 } _ (Or.inr (Or.inr rfl))
+
 /-- a type 9 block whose encoding field is `e`, 8 bits, one channel, 8000 Hz, 4 audio bytes + terminator -/
 def vocFile (e : Nat) : List Byte :=
   Voc.fileHdr ++ [9] ++ Voc.le24 16 ++ Small2.le32 8000 ++ [8, 1] ++ Small2.le16 e ++ Small2.le32 0 ++ [1, 2, 3, 4] ++ [0]
